@@ -334,7 +334,8 @@ META = {
     "with the reason checked structurally); the escape of a mutable stored value while the memo is trusted is "
     "reported (known finding); each of the ~35 explicitly registered (validate, convert, detype) triples pairs the "
     "converter with its confirmed detyper; detype exports a string only past the mask / no-detyper / None skips; "
-    "the child's mapping is computed inside the per-command swap. Value-level round-trips are not decided.",
+    "the child's mapping is computed inside the per-command swap; a stage's `$X=1` overlay is read from `envs` at "
+    "the stage's own position in the command list. Value-level round-trips are not decided.",
     "note": "Decides the listed structural clauses, not the behaviour. The converter->detyper table is frozen from "
     "reading tools.py/environ.py; a converter the table has never seen is reported in the evidence, not failed.",
 }
